@@ -364,7 +364,9 @@ impl VM {
                 OpCode::Call => {
                     let num_args = self.read_u8();
                     let base_pointer = self.stack.len() - 1 - num_args as usize;
-                    if base_pointer > u16::MAX as usize {
+                    // the frames of a function without parameters and locals take no stack slots:
+                    // bound the number of nested calls as well
+                    if base_pointer > u16::MAX as usize || self.frames.len() > u16::MAX as usize {
                         return Err(Error::ArgumentError(
                             "de stapel is vol: te veel geneste functie aanroepen".to_string(),
                         ));
